@@ -57,6 +57,9 @@ def _fold_compile(calls):
 
 
 def run(ctx, model):
+    from . import signatures as _sig
+    _n_sig = _sig.check(ctx, model, "R-SIGNATURE", lambda k: k.split('.')[-1] in ('has_match', 'is_exact_match', 'iterate_matches', 'iterate_matches_and_pos', 'get_matches', 'get_matches_and_pos', 'compile', 'get_compiled_pattern', 'get_pattern', 'print_pattern', 'purge'))
+    ctx.floor("R-SIGNATURE", _n_sig, 1, "public entry points")
     ctx.explanation = (
         "The methods of Pregex that call `re` are walked by the abstract interpreter with `re` replaced by a "
         "recorder and the compiled cache being None or an abstract compiled pattern.  R-DUAL: for has_match / "
@@ -104,6 +107,9 @@ def run(ctx, model):
         if meth == "__iterate_match_objects":
             try:
                 f = model.method(PRE, "Pregex", meth)
+                ps = [p_ for p_ in f.params if p_ not in ("self", "cls")]
+                if not (len(ps) == 2 and "path" in ps[1]):
+                    raise AnalysisError("the private iterator does not have the signature (source, is_path)")
             except AnalysisError:
                 # no dedicated private iterator (e.g. one dispatcher for all three): the finditer site is observed
                 # through the public generator that yields matches with their positions
@@ -177,6 +183,49 @@ def run(ctx, model):
     ctx.floor("R-DUAL", ctx.rule_counts.get("R-DUAL", 0), 12, "dual-path evaluations")
     # both arms must be applied to exactly the caller's text (edge-sensitive witnesses: BOM, line endings, blanks ...)
     MM.subject_rule(ctx, model, "R-SOURCE", sorted(MM.matching_methods(model)))
+
+    # ---------------- R-DUAL, repeated use of ONE instance: the n-th call does what the first call does (a usage counter, a
+    # "hot path" after k scans, a lazily promoted cache must not change which re entry point, pattern, flags or text is used).
+    # n ranges over the neighbours of every integer constant in the matching code, so a threshold is crossed.
+    from ..consts import interesting_ints, around
+    from ..interp import Interp as _Interp
+    meths_all = MM.matching_methods(model)
+    reach, todo = [], list(meths_all.values()) + [model.method(PRE, "Pregex", "compile")]
+    while todo:
+        g = todo.pop()
+        if g not in reach and len(reach) < 60:
+            reach.append(g)
+            todo += model._private_callees(g)
+    limit = max([3] + [c for c in around(interesting_ints(reach, lo=2, hi=400))]) + 2
+    ctx.extra["R-DUAL repeated calls on one instance"] = limit
+    for name in sorted(meths_all):
+        f = meths_all[name]
+        kw = {p: (TEXT if p == "source" else False if p == "is_path" else 1 if p in ("n_left", "n_right") else "<repl>" if p == "repl"
+                  else 0 if p == "count" else True) for p in f.params if p != "self"}
+        for compiled in (False, True):
+            hooks = MM.MatchHooks(model, MM.std_matches)
+            it = _Interp(model, hooks, fuel=4_000_000)
+            o = MM.pregex_obj(model, hooks, compiled)
+            first, bad = None, None
+            try:
+                for k in range(1, limit + 1):
+                    n0 = len(hooks.calls)
+                    v = it.call(FuncRef(f, o, True), [], dict(kw))
+                    if hasattr(v, "__next__"):
+                        list(v)
+                    sig = [(c.get("via"), c.get("entry"), c.get("pattern"), int(c.get("flags") or 0), c.get("subject")) for c in _fold_compile(hooks.calls[n0:])]
+                    if first is None:
+                        first = sig
+                    elif sig != first and bad is None:
+                        bad = (k, sig)
+            except PyRaise as e:
+                bad = bad or (k, f"raises {e.name}")
+            inp = f"{name} called {limit} times on one {'compiled' if compiled else 'uncompiled'} instance"
+            ctx.instance("R-DUAL", key=inp, sample=f"{inp}: every call makes the re calls of the first one: {bad is None}")
+            if bad is not None:
+                ctx.violation("R-DUAL", f.relpath, f.short, "<re calls change with use>",
+                              "the same call on the same instance uses re differently after repeated use (entry point, pattern, flags or text)",
+                              f.node.lineno, inp=inp, detail=f"call 1: {first}; call {bad[0]}: {bad[1]}")
 
     # ---------------- R-CACHE
     from ..absdom import cache_field, pattern_of
